@@ -56,6 +56,7 @@ func checkC03(p *core.Prog, r *core.Report) {
 	c03R6(p, r)
 	c03R7(p, r)
 	c03R8(p, r)
+	c03R9(p, r)
 }
 
 // finishing helpers: they answer or hand over the request they are given.
@@ -793,5 +794,77 @@ func c03R8(p *core.Prog, r *core.Report) {
 	}
 	if n == 0 {
 		r.Fail("C03/R8: no text handler hands a request to the engine")
+	}
+}
+
+// ---------------------------------------------------------------------------
+// R9: when a re-lock or an update makes a new request the hold's command
+// (UpdateLockedLock), the hold's later notices (EXPRIED, TIMEOUT) carry that
+// request's id - so they must also go to that request's connection: the hold's
+// protocol has to be switched on the same path.
+func c03R9(p *core.Prog, r *core.Report) {
+	const rule = "C03/R9"
+	r.Rule(rule, "LockDB.Lock: every path that makes the request the hold's command (UpdateLockedLock) also makes the request's connection the hold's protocol", 2)
+	fn := mustFunc(p, r, "server.(*LockDB).Lock")
+	if fn == nil {
+		return
+	}
+	protoKey := fk("server.Lock", "protocol")
+	sites := map[string]string{} // site key -> position
+	bad := map[string][]string{}
+	ex := core.NewExplorer(p, core.Hooks{
+		Instr: func(x *core.X) {
+			if !x.Top() {
+				return
+			}
+			if calleeIs(x.Ins, "LockManager", "UpdateLockedLock") {
+				hold := core.Plain(argCanon(x, x.Ins, 1))
+				x.Set("upd:"+hold, siteKey(p, x.Ins)+"\x00"+x.Pos())
+				return
+			}
+			if st, ok := x.Ins.(*ssa.Store); ok {
+				if k, ok := storeKey(st.Addr); ok && k == protoKey {
+					if fa, ok := st.Addr.(*ssa.FieldAddr); ok && strings.HasPrefix(core.Plain(x.Canon(st.Val).S), "GetProxy(") {
+						hold := core.Plain(x.Canon(fa.X).S)
+						if v := x.Get("upd:" + hold); v != "" {
+							parts := strings.SplitN(v, "\x00", 2)
+							sites[parts[0]] = parts[1]
+							x.Set("upd:"+hold, "")
+						}
+					}
+				}
+			}
+		},
+		Exit: func(x *core.X, rets []core.Expr) {
+			for k, v := range x.St.RS {
+				if strings.HasPrefix(k, "upd:") && v != "" {
+					parts := strings.SplitN(v, "\x00", 2)
+					sites[parts[0]] = parts[1]
+					if bad[parts[0]] == nil {
+						bad[parts[0]] = x.St.Trace
+					}
+				}
+			}
+		},
+	})
+	ex.NoHist = true
+	ex.Run(fn, nil)
+	if ex.Imprecise != "" {
+		r.Fail("C03/R9: %s", ex.Imprecise)
+	}
+	if len(sites) == 0 {
+		r.Fail("C03/R9: no UpdateLockedLock call found in LockDB.Lock")
+	}
+	var keys []string
+	for k := range sites {
+		keys = append(keys, k)
+	}
+	sort.Strings(keys)
+	for _, k := range keys {
+		if tr, isBad := bad[k]; isBad {
+			r.Violate(rule, k, sites[k], "the request becomes the hold's command on a path that leaves the hold's protocol on the previous connection: the hold's later EXPRIED / TIMEOUT notice carries this request's id but is delivered to the connection that sent the earlier request - a reply for a request that connection never made, and none for this one", tr)
+		} else {
+			r.Hold(rule, k, sites[k], "protocol switched with the command")
+		}
 	}
 }
